@@ -501,6 +501,41 @@ fn text_spellings(v: &Val, canon_text: &str, canon: &[bool]) -> Vec<(String, Str
         let t = canon_text.replacen(": ", ": 1 + ", 1);
         out.push(("expr-in-field".into(), t, Expect::May(vec![])));
     }
+    // identifiers are not literals, even when the program has constants of that name and type
+    {
+        let bytes: Vec<char> = canon_text.chars().collect();
+        if let Some(start) = bytes.iter().position(|c| c.is_ascii_digit()) {
+            // the first number (with its sign) replaced by the name of a u8 / i8 constant
+            let mut end = start;
+            while end < bytes.len() && bytes[end].is_ascii_digit() {
+                end += 1;
+            }
+            let s0 = if start > 0 && bytes[start - 1] == '-' { start - 1 } else { start };
+            let before: String = bytes[..s0].iter().collect();
+            let after: String = bytes[end..].iter().collect();
+            out.push(("identifier-for-number".into(), format!("{before}b{after}"), Expect::MustErr));
+            out.push(("identifier-for-number".into(), format!("{before}m{after}"), Expect::MustErr));
+        }
+        if canon_text.contains("true") {
+            out.push(("identifier-for-bool".into(), canon_text.replacen("true", "a", 1), Expect::MustErr));
+        }
+        if canon_text.contains("false") {
+            out.push(("identifier-for-bool".into(), canon_text.replacen("false", "a", 1), Expect::MustErr));
+        }
+        if let Some(open) = canon_text.find(" {") {
+            // struct field shorthand: `S {a: true, b: 1}` -> `S {a, b: 1}` and `S {a: a, b: 1}`
+            if let Some(colon) = canon_text[open..].find(": ") {
+                let name_start = open + 2;
+                let name = &canon_text[name_start..open + colon];
+                let rest = &canon_text[open + colon + 2..];
+                let value_end = rest.find([',', '}']).unwrap_or(rest.len());
+                if !name.contains(' ') && !rest[..value_end].contains(['(', '[', '{']) {
+                    out.push(("struct-field-shorthand".into(), format!("{}{}{}", &canon_text[..name_start], name, &rest[value_end..]), Expect::MustErr));
+                    out.push(("struct-field-identifier".into(), format!("{}{}: {}{}", &canon_text[..name_start], name, name, &rest[value_end..]), Expect::MustErr));
+                }
+            }
+        }
+    }
     if let Some(stripped) = canon_text.strip_suffix(']') {
         out.push(("trailing-comma".into(), format!("{stripped},]"), Expect::May(canon.to_vec())));
     }
@@ -519,6 +554,13 @@ fn check_type(ty: &Ty, tier: Tier, cnt: &Cnt, coll: &Collector) {
     let site_ty = show_ty(ty).replace(' ', "");
     let mut prog = Program::simple_main(vec![("x", ty.clone()), ("pad", Ty::Bool)], ty.clone(), vec![expr_stmt(var("x"))]);
     prog.defs = defs.clone();
+    // constants named like the struct fields (an identifier in a literal must be refused all the same)
+    prog.consts = vec![
+        ConstDef { name: "a".into(), ty: Ty::Bool, value: Val::Bool(true) },
+        ConstDef { name: "b".into(), ty: Ty::u8(), value: Val::u8(1) },
+        ConstDef { name: "m".into(), ty: Ty::Int(IntTy::I8), value: Val::Int(-1, IntTy::I8) },
+        ConstDef { name: "z".into(), ty: Ty::u8(), value: Val::u8(2) },
+    ];
     let n_ids = prog.assign_ids();
     let text = print_program(&prog, n_ids).text;
     let gp: Box<GarbleProgram> = match subject::compile(&text, Config { register: false, dedup: true }, HashMap::new()) {
